@@ -252,12 +252,10 @@ func (c17) Gen(rng *rand.Rand, tier string, emit func(string)) {
 	} {
 		emit(c)
 	}
-	if os.Getenv("C17_PENDING") != "" {
-		// proposed known finding (zlib's gz* functions ignore what follows a complete gzip member when it does not start
-		// with the gzip magic number): emitted once the finding `^kseq\.gz\.zlib-reports-clean$` is registered
-		emit("kseq gz nrec=5 m2cut=1")
-		emit("kseq gz nrec=5 m2flip=3")
-	}
+	// known finding D22z (zlib's gz* functions ignore what follows a complete gzip member when it does not start
+	// with the gzip magic number; signature `^kseq\.gz\.zlib-reports-clean$`)
+	emit("kseq gz nrec=5 m2cut=1")
+	emit("kseq gz nrec=5 m2flip=3")
 	// random texts (FASTA / FASTQ pieces, blank lines, CR LF, stray header characters), plain and compressed + damaged
 	nk := 260
 	if tier == "thorough" {
@@ -374,6 +372,7 @@ func (c17) Gen(rng *rand.Rand, tier string, emit func(string)) {
 		emit(fmt.Sprintf("cmd obiconvert pipe gz nrec=400 cut=%d", 10+rng.Intn(len(zp)-10)))
 	}
 	emit(fmt.Sprintf("cmd obiconvert pipe gz:fastq nrec=300 cut=%d", len(c17Compress("gz", c17FormatData("fastq", 300)))-2))
+	c17GenMulti(rng, tier, emit)
 	n := 520
 	if tier == "thorough" {
 		n = 4000
@@ -459,7 +458,7 @@ func (c17) Exec(c string) (string, []Fail) {
 			fails = append(fails, Fail{Sig: "guess.error-accepted." + f[3], Text: "the stream ended with a read error but the guesser accepted it"})
 		}
 		return res, fails
-	case f[0] == "file" && len(f) == 6:
+	case f[0] == "file" && (len(f) == 6 || (len(f) == 7 && strings.HasPrefix(f[6], "ms="))):
 		return c17File(f)
 	case f[0] == "cmd" && len(f) == 6:
 		return c17Cmd(f)
@@ -484,22 +483,22 @@ func c17Split(s string) (string, string) {
 //   m2flip=B   two-member file, bit B of the second member flipped
 //   tail=N     complete file followed by N bytes that are not a compressed stream
 func c17Damage(f []string) (codec string, nrec int, z []byte, label string, ok bool) {
-	codec, format := c17Split(f[1])
+	sp, nrec, _, z, label, ok := c17DamageX(f)
+	return sp.codec, nrec, z, label, ok
+}
+
+// c17DamageX: c17Damage with the parsed file description and the undamaged file (nil for the m2cut / m2flip forms)
+func c17DamageX(f []string) (sp c17Spec, nrec int, built *c17Built, z []byte, label string, ok bool) {
+	sp, oks := c17ParseSpec(f[1])
 	nrec, ok1 := c17KV(f[2], "nrec")
-	if !ok1 || nrec < 0 || nrec > 100000 {
+	if !oks || !ok1 || nrec < 0 || nrec > 100000 {
 		return
 	}
-	known := false
-	for _, c := range []string{"gz", "bz2", "xz", "zst"} {
-		known = known || c == codec
+	codec, format := sp.codec, sp.format
+	if _, is := c17KV(f[3], "m2cut"); is && (sp.layout != "" || sp.variant != "") {
+		return
 	}
-	for _, c := range c17Formats {
-		if c == format {
-			known = known && true
-			format = c
-		}
-	}
-	if !known {
+	if _, is := c17KV(f[3], "m2flip"); is && (sp.layout != "" || sp.variant != "") {
 		return
 	}
 	data := c17FormatData(format, nrec)
@@ -508,7 +507,7 @@ func c17Damage(f []string) (codec string, nrec int, z []byte, label string, ok b
 		if k < 1 || k >= len(z2) {
 			return
 		}
-		return codec, nrec, append(append([]byte{}, z1...), z2[:k]...), fmt.Sprintf("m2cut=%d/%d", k, len(z2)), true
+		return sp, nrec, nil, append(append([]byte{}, z1...), z2[:k]...), fmt.Sprintf("m2cut=%d/%d", k, len(z2)), true
 	}
 	if b, is := c17KV(f[3], "m2flip"); is {
 		z1, z2 := c17Compress(codec, data[:len(data)/2]), c17Compress(codec, data[len(data)/2:])
@@ -516,64 +515,120 @@ func c17Damage(f []string) (codec string, nrec int, z []byte, label string, ok b
 			return
 		}
 		z2[b/8] ^= 1 << (b % 8)
-		return codec, nrec, append(append([]byte{}, z1...), z2...), fmt.Sprintf("m2flip=%d", b), true
+		return sp, nrec, nil, append(append([]byte{}, z1...), z2...), fmt.Sprintf("m2flip=%d", b), true
 	}
-	z = c17Compress(codec, data)
-	if len(z) == 0 {
+	built = c17Build(sp, nrec)
+	if len(built.z) == 0 {
 		return
 	}
-	if n, is := c17KV(f[3], "tail"); is {
-		if n < 1 || n > 64 {
-			return
-		}
-		for i := 0; i < n; i++ {
-			z = append(z, byte(0x41+i%7))
-		}
-		return codec, nrec, z, fmt.Sprintf("tail=%d", n), true
-	}
-	if k, isCut := c17KV(f[3], "cut"); isCut {
-		if k < 0 || k > len(z) {
-			return
-		}
-		return codec, nrec, z[:k], fmt.Sprintf("cut=%d/%d", k, len(z)), true
-	}
-	if b, isFlip := c17KV(f[3], "flip"); isFlip {
-		if b < 0 || b >= len(z)*8 {
-			return
-		}
-		z2 := append([]byte{}, z...)
-		z2[b/8] ^= 1 << (b % 8)
-		return codec, nrec, z2, fmt.Sprintf("flip=%d", b), true
-	}
-	return
+	z, label, ok = c17ApplyDamage(built.z, f[3])
+	return sp, nrec, built, z, label, ok
 }
 
-// c17File reads the damaged file through the real ReadSequencesFromFile; the decompressor's own
-// verdict on the damaged bytes (bytes delivered, error class) is recorded as data for the model.
+var (
+	c17TmpOnce sync.Once
+	c17TmpDir  string
+	c17TmpSeq  int
+	c17Expect  = map[string][2]string{} // (format, nrec) -> record count, digest of the intact plain file
+)
+
+// c17TmpFile writes the bytes to a fresh file of the process-wide scratch directory
+func c17TmpFile(name string, z []byte) string {
+	c17TmpOnce.Do(func() { c17TmpDir, _ = os.MkdirTemp("", "c17") })
+	c17TmpSeq++
+	dir := filepath.Join(c17TmpDir, strconv.Itoa(c17TmpSeq))
+	os.MkdirAll(dir, 0o755)
+	path := filepath.Join(dir, name)
+	os.WriteFile(path, z, 0o644)
+	return path
+}
+
+// c17Expected: number of records and digest of the records of the intact, uncompressed file
+func c17Expected(format string, nrec int) (int, string, bool) {
+	key := fmt.Sprintf("%s/%d", format, nrec)
+	if e, ok := c17Expect[key]; ok {
+		n, _ := strconv.Atoi(e[0])
+		return n, e[1], e[1] != ""
+	}
+	path := c17TmpFile("t."+format, c17FormatData(format, nrec))
+	defer os.RemoveAll(filepath.Dir(path))
+	n, dg, res := c17Digest(path)
+	if res != "ok" {
+		dg = ""
+	}
+	c17Expect[key] = [2]string{strconv.Itoa(n), dg}
+	return n, dg, dg != ""
+}
+
+// c17Where: which part of which member the damage of a case falls in (statistics only)
+func c17Where(b *c17Built, damage string) string {
+	if b == nil {
+		return ""
+	}
+	pos := -1
+	if k, is := c17KV(damage, "cut"); is {
+		pos = k
+	} else if k, is := c17KV(damage, "flip"); is {
+		pos = k / 8
+	} else if k, is := c17KV(damage, "byte"); is {
+		pos = k
+	}
+	if pos < 0 || pos >= len(b.z) {
+		return "whole"
+	}
+	m := 0
+	for m+1 < len(b.offs) && b.offs[m+1] <= pos {
+		m++
+	}
+	endm := len(b.z)
+	if m+1 < len(b.offs) {
+		endm = b.offs[m+1]
+	}
+	which := "m1"
+	if m > 0 {
+		which = "m2+"
+	}
+	switch {
+	case pos-b.offs[m] < 12:
+		return which + ":header"
+	case endm-pos <= 12:
+		return which + ":trailer"
+	}
+	return which + ":body"
+}
+
+// c17File reads the damaged file through the real ReadSequencesFromFile.  The verdict of the decompression
+// LIBRARY on the damaged bytes (bytes delivered, error class; the library called directly, independently of
+// xopen.go) is recorded as data for the model; what the toolkit's own opener (Ropen) delivers for the same file
+// is compared with it; the records of an accepted file are compared with those of the intact file.
 func c17File(f []string) (string, []Fail) {
-	codec, nrec, z, label, ok := c17Damage(f)
+	sp, nrec, built, z, label, ok := c17DamageX(f)
 	if !ok {
 		return "bad-op", nil
 	}
-	dir, _ := os.MkdirTemp("", "c17")
-	defer os.RemoveAll(dir)
-	_, format := c17Split(f[1])
+	codec, format := sp.codec, sp.format
 	stat("file-format:" + format)
 	stat("file-damage:" + strings.SplitN(f[3], "=", 2)[0])
-	path := filepath.Join(dir, "t."+format+"."+codec)
-	os.WriteFile(path, z, 0o644)
-	// what the decompression stack (the toolkit's own opener) says about these bytes
-	n, class := 0, "eof"
-	var decoded []byte
-	openFailed := false
+	if sp.layout != "" {
+		stat("file-layout:" + codec + ":" + sp.layout[:1])
+		stat("file-member-damage:" + codec + ":" + c17Where(built, f[3]))
+	}
+	if sp.variant != "" {
+		stat("file-variant:" + codec + "~" + sp.variant)
+	}
+	path := c17TmpFile("t."+format+"."+codec, z)
+	defer os.RemoveAll(filepath.Dir(path))
+	// what the decompression library says about these bytes
+	decoded, class := c17LibScan(z)
+	n := len(decoded)
+	// what the toolkit's own opener delivers
+	xn, xclass := 0, "eof"
+	var xdecoded []byte
 	guard(func() string {
 		r, err := obiformats.Ropen(path)
 		if err != nil {
-			openFailed = true
-			if err == obiformats.ErrNoContent {
-				class = "eof"
-			} else {
-				class = "other"
+			if err != obiformats.ErrNoContent {
+				xclass = "other"
 			}
 			return ""
 		}
@@ -582,44 +637,23 @@ func c17File(f []string) (string, []Fail) {
 		for err == nil {
 			var nn int
 			nn, err = r.Read(buf)
-			decoded = append(decoded, buf[:nn]...)
-			n += nn
+			xdecoded = append(xdecoded, buf[:nn]...)
+			xn += nn
 		}
-		raw := n == len(z) && bytes.Equal(decoded, z) // not recognised as a compressed stream: the damaged bytes are read as they are
-		switch {
-		case err == io.EOF && raw && n > 0:
-			class = "raw"
-		case err == io.EOF:
-			class = "eof"
-		case errors.Is(err, io.ErrUnexpectedEOF):
-			class = "ueof"
-		default:
-			class = "other"
+		if err != io.EOF {
+			xclass = "other"
 		}
 		return ""
 	})
-	_ = openFailed
 	full := c17FormatData(format, nrec)
-	nrecRead := -1
-	rawAccepted := false
-	res := guardT(10*time.Second, func() string {
-		it, err := obiformats.ReadSequencesFromFile(path, obiformats.OptionsParallelWorkers(1))
-		if err != nil {
-			return "fail"
-		}
-		cnt := 0
-		for it.Next() {
-			cnt += it.Get().Len()
-		}
-		nrecRead = cnt
-		if cnt == 0 && n == 0 {
-			return "empty"
-		}
-		return "ok"
-	})
+	nrecRead, digest, res := c17Digest(path)
+	if res == "ok" && nrecRead == 0 && xn == 0 {
+		res = "empty"
+	}
 	if res == "fatal" {
 		res = "fail"
 	}
+	rawAccepted := false
 	if class == "raw" {
 		// a file cut inside its magic number is not a compressed file any more: it is read as plain text
 		// (and refused unless it happens to look like a sequence file); the model has no opinion
@@ -627,19 +661,37 @@ func c17File(f []string) (string, []Fail) {
 		res = "raw"
 	}
 	caseOverride = fmt.Sprintf("file %s nrec=%d %s n=%d err=%s", f[1], nrec, f[3], n, class)
+	if built != nil && len(built.sizes) > 1 {
+		caseOverride += " ms=" + c17Sizes(built.sizes)
+	}
 	var fails []Fail
 	stat("damage-class:" + class)
+	// the opener must hand the library's verdict on unchanged: same bytes, an error exactly when the library reports one
+	if (xclass == "eof") != (class == "eof" || class == "raw") || (xclass == "eof" && !bytes.Equal(xdecoded, decoded)) || (xclass != "eof" && xn > n) {
+		fails = append(fails, Fail{Sig: "file." + codec + ".opener-changes-verdict", Text: fmt.Sprintf("%s: the library delivers %d bytes and ends with %s, the toolkit's opener delivers %d bytes and ends with %s", label, n, class, xn, xclass)})
+	}
 	if rawAccepted {
 		fails = append(fails, Fail{Sig: "file." + codec + ".magic-damaged-accepted-as-text", Text: label + ": the magic number is damaged, the file is no longer recognised as compressed and its bytes were accepted as a text format"})
 	}
 	if res == "ok" || res == "empty" {
-		// accepted: then the file must have delivered the complete data
-		if n != len(full) || nrecRead != nrec || (class != "raw" && !bytes.Equal(decoded, full)) {
+		// accepted: then the file must have delivered the complete data of ALL its members and the reader ALL the records
+		wantN, wantDigest, have := c17Expected(format, nrec)
+		switch {
+		case n != len(full) || nrecRead != nrec || !bytes.Equal(decoded, full):
 			sig := "file." + codec + ".accepted-damaged"
 			if class == "eof" {
 				sig = "file." + codec + ".codec-reports-clean-eof" // the decompression library itself hides the damage
 			}
+			if class == "eof" && sp.variant == "nocrc" && n > 0 {
+				// a stream format without content checksum: the library cannot know, nor can the toolkit
+				stat("undetectable-without-checksum:" + codec)
+				break
+			}
 			fails = append(fails, Fail{Sig: sig, Text: fmt.Sprintf("%s: %d of %d bytes decoded (decompressor says %s) and the reader ended normally with %d of %d records", label, n, len(full), class, nrecRead, nrec)})
+		case have && (nrecRead != wantN || digest != wantDigest):
+			fails = append(fails, Fail{Sig: "file." + codec + ".accepted-different-records", Text: fmt.Sprintf("%s: the reader ended normally but its %d records differ from the %d records of the intact file", label, nrecRead, wantN)})
+		default:
+			stat("accepted-complete:" + strings.SplitN(f[3], "=", 2)[0])
 		}
 	} else if res != "fail" && res != "raw" {
 		fails = append(fails, Fail{Sig: "file.outcome", Text: res})
@@ -831,8 +883,30 @@ func c17KseqData(spec string) ([]byte, bool) {
 // recorded with an independent scan and given to the model as data.
 func c17Kseq(f []string) (string, []Fail) {
 	data, ok := c17KseqData(f[2])
-	if !ok || (f[1] != "raw" && f[1] != "gz") {
+	multi := strings.HasPrefix(f[1], "gz+")
+	if !ok || (f[1] != "raw" && f[1] != "gz" && !multi) {
 		return "bad-op", nil
+	}
+	if multi {
+		// multi-member gzip file (layouts of c17Spec) of the FASTA / FASTQ text `nrec=N` / `fq=N`
+		sp, oks := c17ParseSpec(f[1])
+		nrec, isFa := c17KV(f[2], "nrec")
+		if nq, isFq := c17KV(f[2], "fq"); isFq {
+			sp.format, nrec = "fastq", nq
+		} else if !isFa {
+			return "bad-op", nil
+		}
+		if !oks || sp.layout == "" {
+			return "bad-op", nil
+		}
+		built := c17Build(sp, nrec)
+		z, _, okd := c17ApplyDamage(built.z, f[3])
+		if !okd {
+			return "bad-op", nil
+		}
+		stat("kseq-layout:" + sp.layout[:1])
+		stat("kseq-member-damage:" + c17Where(built, f[3]))
+		return c17KseqRun(f, data, z, !bytes.Equal(z, built.z))
 	}
 	comp := func(b []byte) []byte {
 		if f[1] == "gz" {
@@ -847,7 +921,10 @@ func c17Kseq(f []string) (string, []Fail) {
 	k2, isCut2 := c17KV(f[3], "m2cut")
 	b2, isFlip2 := c17KV(f[3], "m2flip")
 	nt, isTail := c17KV(f[3], "tail")
+	kb, isByte := c17KV(f[3], "byte")
 	switch {
+	case isByte && kb >= 0 && kb < len(z):
+		z[kb] ^= 0xff
 	case f[3] == "none":
 		damaged = false
 	case isCut && k >= 0 && k <= len(z):
@@ -876,11 +953,14 @@ func c17Kseq(f []string) (string, []Fail) {
 	default:
 		return "bad-op", nil
 	}
-	stat("kseq-damage:" + f[1] + ":" + strings.SplitN(f[3], "=", 2)[0])
-	dir, _ := os.MkdirTemp("", "c17k")
-	defer os.RemoveAll(dir)
-	path := filepath.Join(dir, "t.fasta.gz")
-	os.WriteFile(path, z, 0o644)
+	return c17KseqRun(f, data, z, damaged)
+}
+
+// c17KseqRun: the C reader on the file `z` (the possibly damaged form of the text `data`)
+func c17KseqRun(f []string, data, z []byte, damaged bool) (string, []Fail) {
+	stat("kseq-damage:" + strings.SplitN(f[1], "+", 2)[0] + ":" + strings.SplitN(f[3], "=", 2)[0])
+	path := c17TmpFile("t.fasta.gz", z)
+	defer os.RemoveAll(filepath.Dir(path))
 	delivered, fin, sok := c17GzScan(path)
 	if !sok {
 		return "bad-op", nil
@@ -939,15 +1019,15 @@ func c17Kseq(f []string) (string, []Fail) {
 	}
 	stat("kseq-outcome:" + strings.SplitN(res, " ", 2)[0])
 	if fin != "clean" && strings.HasPrefix(res, "ok") {
-		fails = append(fails, Fail{Sig: "kseq." + f[1] + ".stream-error-accepted", Text: fmt.Sprintf("%s: zlib reports the stream as %s after %d bytes and the C reader ended normally with %d records", f[3], fin, len(delivered), len(recs))})
+		fails = append(fails, Fail{Sig: "kseq." + strings.SplitN(f[1], "+", 2)[0] + ".stream-error-accepted", Text: fmt.Sprintf("%s: zlib reports the stream as %s after %d bytes and the C reader ended normally with %d records", f[3], fin, len(delivered), len(recs))})
 	}
-	if fin == "clean" && damaged && f[1] == "gz" && strings.HasPrefix(res, "ok") && !full {
+	if fin == "clean" && damaged && strings.HasPrefix(f[1], "gz") && strings.HasPrefix(res, "ok") && !full {
 		// the damage is not reported by zlib itself (e.g. a damaged magic number makes it copy the file as plain text,
 		// what follows the first gzip member is ignored when it is not a gzip header)
-		fails = append(fails, Fail{Sig: "kseq." + f[1] + ".zlib-reports-clean", Text: fmt.Sprintf("%s: zlib delivers %d bytes (complete data: %d) without any error and the C reader ended normally with %d records", f[3], len(delivered), len(data), len(recs))})
+		fails = append(fails, Fail{Sig: "kseq." + strings.SplitN(f[1], "+", 2)[0] + ".zlib-reports-clean", Text: fmt.Sprintf("%s: zlib delivers %d bytes (complete data: %d) without any error and the C reader ended normally with %d records", f[3], len(delivered), len(data), len(recs))})
 	}
 	if !damaged && !strings.HasPrefix(res, "ok") && f[2][0] != 'x' && !(strings.HasPrefix(f[2], "big=") && res == "fatal:-4") {
-		fails = append(fails, Fail{Sig: "kseq." + f[1] + ".complete-file", Text: "complete well-formed file: " + res})
+		fails = append(fails, Fail{Sig: "kseq." + strings.SplitN(f[1], "+", 2)[0] + ".complete-file", Text: "complete well-formed file: " + res})
 	}
 	caseOverride = fmt.Sprintf("kseq %s %s %s fin=%s d=%s", f[1], f[2], f[3], fin, hx(delivered))
 	return res, fails
